@@ -6,6 +6,7 @@ from ..calls import check_self_attrs
 from ..kinds import IDX, Atom, elem_of
 from ..model import AnalysisError, is_self_attr, loc, norm, walk_no_nested
 from ..report import Result
+from ..rules_container import _atoms, _implied_branch
 from ._containers import KIND_RULES
 
 LEVEL_TEXT = (
@@ -120,41 +121,122 @@ def run(ctx):
         v = ctx.view("HyMMSBMSampler.sample")
         f = v.fi.short
         ys = [n for n in walk_no_nested(v.fi.node) if isinstance(n, ast.Yield)]
-        if len(ys) != 1 or not isinstance(ys[0].value, ast.Call) or norm(ys[0].value.func) != "Hypergraph":
+        if len(ys) != 1 or not isinstance(v.inline(ys[0].value), ast.Call) or norm(v.inline(ys[0].value).func) != "Hypergraph":
             raise AnalysisError(f"{f}: yield idiom not recognised")
-        kw = {k.arg: k.value for k in ys[0].value.keywords}
-        res.check(isinstance(kw.get("weighted"), ast.Constant) and kw["weighted"].value is True, "Y-WEIGHTED", f, norm(ys[0]), "weighted=True", "the produced hypergraph is not weighted", loc(v.fi, ys[0]))
-        el, wl = norm(kw.get("edge_list", ast.Constant(None))), norm(kw.get("weights", ast.Constant(None)))
-        import re
+        ycall = v.inline(ys[0].value, depth=1)
+        kw = {k.arg: k.value for k in ycall.keywords}
+        wflag = kw.get("weighted")
+        res.add("Y-WEIGHTED", f, norm(ys[0]), "weighted=True", "ok" if isinstance(wflag, ast.Constant) and wflag.value is True else ("violation" if wflag is None or isinstance(wflag, ast.Constant) else "unknown"), "the produced hypergraph is not weighted", loc(v.fi, ys[0]))
 
-        m1, m2 = re.fullmatch(r"list\((\w+)\)", el), re.fullmatch(r"list\((\w+)\.values\(\)\)", wl)
-        res.check(bool(m1 and m2 and m1.group(1) == m2.group(1)), "Y-WEIGHTED", f, norm(ys[0]), "same-dict", "hyperedges and weights of the produced hypergraph do not come from the same merged dict (they would be out of step)", loc(v.fi, ys[0]))
-        merged = m1.group(1) if m1 else None
-        augs = [n for n in walk_no_nested(v.fi.node) if isinstance(n, ast.AugAssign) and isinstance(n.target, ast.Subscript) and norm(n.target.value) == merged]
-        res.check(bool(augs) and all(isinstance(a.op, ast.Add) for a in augs), "Y-WEIGHTED", f, norm(augs[0]) if augs else f"{merged}[edge] += w", "merge", "duplicate hyperedges are not merged by summing their weights", loc(v.fi, ys[0]))
-        for a in augs:
-            lp = v.enclosing(a, (ast.For,))
-            ok = lp is not None and norm(lp.iter) == "zip(hye_list, weights)"
-            res.check(ok, "Y-WEIGHTED", f, norm(lp.iter) if lp is not None else norm(a), "zip", "the merge does not pair each hyperedge with its own weight", loc(v.fi, a))
-        nz = [n for n in walk_no_nested(v.fi.node) if isinstance(n, ast.Assign) and isinstance(n.targets[0], ast.Name) and "np.where" in norm(n.value) and "> 0" in norm(n.value)]
-        res.check(len(nz) == 1, "Y-WEIGHTED", f, norm(nz[0]) if nz else "nonzero = np.where(weights > 0)[0]", "filter", "zero weights are not filtered out", loc(v.fi, ys[0]))
-        if nz:
-            ix = nz[0].targets[0].id
-            wsel = [n for n in walk_no_nested(v.fi.node) if isinstance(n, ast.Assign) and norm(n.targets[0]) == "weights" and norm(n.value) == f"weights[{ix}]"]
-            hsel = [n for n in walk_no_nested(v.fi.node) if isinstance(n, ast.Assign) and norm(n.targets[0]) == "hye_list" and isinstance(n.value, ast.ListComp) and norm(n.value.generators[0].iter) == ix and norm(n.value.elt) == f"hye_list[{norm(n.value.generators[0].target)}]"]
-            res.check(bool(wsel) and bool(hsel), "Y-WEIGHTED", f, f"weights[{ix}] / [hye_list[idx] for idx in {ix}]", "same-index-set", "weights and hyperedges are filtered with different index sets: weights end up on the wrong hyperedges", loc(v.fi, nz[0]))
-            if wsel and hsel:
-                yid = v.cfg_id(ys[0])
-                res.check(v.cfg.dominates(v.cfg_id(wsel[0]), yid) and v.cfg.dominates(v.cfg_id(hsel[0]), yid), "Y-WEIGHTED", f, norm(wsel[0]), "before-yield", "the zero-weight filter does not precede the yield on every path", loc(v.fi, wsel[0]))
+        def dict_of(e, what):
+            """name of the dict D when e is list(D) / list(D.keys()) (what='keys') or list(D.values()) (what='values')"""
+            if e is None:
+                return None
+            e = v.inline(e, depth=1) if isinstance(e, ast.Name) else e
+            if isinstance(e, ast.Call) and norm(e.func) in ("list", "tuple") and len(e.args) == 1:
+                x = e.args[0]
+                if what == "keys" and isinstance(x, ast.Name):
+                    return x.id
+                if isinstance(x, ast.Call) and isinstance(x.func, ast.Attribute) and x.func.attr == what and isinstance(x.func.value, ast.Name):
+                    return x.func.value.id
+            return None
+
+        d1, d2 = dict_of(kw.get("edge_list"), "keys"), dict_of(kw.get("weights"), "values")
+        if d1 and d2:
+            res.check(d1 == d2, "Y-WEIGHTED", f, norm(ys[0]), "same-dict", "hyperedges and weights of the produced hypergraph do not come from the same merged dict (they would be out of step)", loc(v.fi, ys[0]))
+        else:
+            res.unknown("Y-WEIGHTED", f, norm(ys[0]), "same-dict", "edge_list / weights of the produced hypergraph are not list(D) / list(D.values()) of one dict", loc(v.fi, ys[0]))
+        merged = d1 if d1 and d1 == d2 else None
+        hname = wname = None
+        if merged:
+            stores = [n for n in walk_no_nested(v.fi.node) if isinstance(n, (ast.AugAssign, ast.Assign)) and any(isinstance(t, ast.Subscript) and norm(t.value) == merged for t in ([n.target] if isinstance(n, ast.AugAssign) else n.targets))]
+            augs = [n for n in stores if isinstance(n, ast.AugAssign)]
+            if augs:
+                res.check(all(isinstance(a_.op, ast.Add) for a_ in augs), "Y-WEIGHTED", f, norm(augs[0]), "merge", "duplicate hyperedges are not merged by summing their weights", loc(v.fi, augs[0]))
+            elif stores:
+                summing = [n for n in stores if isinstance(n.value, ast.BinOp) and isinstance(n.value.op, ast.Add) and merged in norm(n.value)]
+                res.add("Y-WEIGHTED", f, norm(stores[0]), "merge", "ok" if summing else "violation", "" if summing else "duplicate hyperedges are not merged by summing their weights (the last weight wins)", loc(v.fi, stores[0]))
+            else:
+                res.unknown("Y-WEIGHTED", f, f"{merged}[edge] += w", "merge", "the statement that fills the merged dict was not recognised", loc(v.fi, ys[0]))
+            for a_ in augs:
+                lp = v.enclosing(a_, (ast.For,))
+                it = lp.iter if lp is not None else None
+                if isinstance(it, ast.Call) and norm(it.func) == "zip" and len(it.args) == 2 and all(isinstance(x, ast.Name) for x in it.args) and isinstance(lp.target, ast.Tuple) and len(lp.target.elts) == 2:
+                    e_t, w_t = norm(lp.target.elts[0]), norm(lp.target.elts[1])
+                    ok = norm(a_.target.slice) == e_t and norm(a_.value) == w_t
+                    res.check(ok, "Y-WEIGHTED", f, norm(lp.iter), "zip", "the merge does not pair each hyperedge with its own weight", loc(v.fi, a_))
+                    hname, wname = it.args[0].id, it.args[1].id
+                else:
+                    res.unknown("Y-WEIGHTED", f, norm(it) if it is not None else norm(a_), "zip", "the loop that pairs hyperedges with weights was not recognised", loc(v.fi, a_))
+        if hname and wname:
+            # zero weights are dropped from BOTH lists with ONE index set, before the merge
+            def positive_test(e):
+                for x in ast.walk(e):
+                    if isinstance(x, ast.Compare) and len(x.ops) == 1:
+                        l, r, op = x.left, x.comparators[0], x.ops[0]
+                        if (norm(l) == wname and isinstance(op, ast.Gt) and isinstance(r, ast.Constant) and r.value == 0) or (norm(r) == wname and isinstance(op, ast.Lt) and isinstance(l, ast.Constant) and l.value == 0) or (norm(l) == wname and isinstance(op, ast.NotEq) and isinstance(r, ast.Constant) and r.value == 0):
+                            return True
+                return False
+
+            nz = [n for n in walk_no_nested(v.fi.node) if isinstance(n, ast.Assign) and isinstance(n.targets[0], ast.Name) and positive_test(n.value) and any(t in norm(n.value) for t in ("where", "nonzero", "flatnonzero"))]
+            wsel_all = [n for n in walk_no_nested(v.fi.node) if isinstance(n, ast.Assign) and norm(n.targets[0]) == wname and isinstance(n.value, ast.Subscript) and norm(n.value.value) == wname]
+            hsel_all = [n for n in walk_no_nested(v.fi.node) if isinstance(n, ast.Assign) and norm(n.targets[0]) == hname and isinstance(n.value, ast.ListComp) and len(n.value.generators) == 1 and isinstance(n.value.elt, ast.Subscript) and norm(n.value.elt.value) == hname and norm(n.value.elt.slice) == norm(n.value.generators[0].target)]
+            if len(nz) == 1:
+                res.ok("Y-WEIGHTED", f, norm(nz[0]), "filter", loc(v.fi, nz[0]))
+                ix = nz[0].targets[0].id
+                wsel = [n for n in wsel_all if norm(n.value.slice) == ix]
+                hsel = [n for n in hsel_all if norm(n.value.generators[0].iter) == ix]
+                if wsel and hsel:
+                    res.ok("Y-WEIGHTED", f, f"{wname}[{ix}] / [{hname}[i] for i in {ix}]", "same-index-set", loc(v.fi, nz[0]))
+                    yid = v.cfg_id(ys[0])
+                    res.check(v.cfg.dominates(v.cfg_id(wsel[0]), yid) and v.cfg.dominates(v.cfg_id(hsel[0]), yid), "Y-WEIGHTED", f, norm(wsel[0]), "before-yield", "the zero-weight filter does not precede the yield on every path", loc(v.fi, wsel[0]))
+                elif (wsel_all or hsel_all) and (bool(wsel) != bool(hsel)) and (wsel_all and hsel_all or not (wsel_all and hsel_all)):
+                    # one list is filtered with the index set, the other with another one / not at all
+                    other = (hsel_all if wsel else wsel_all)
+                    res.add("Y-WEIGHTED", f, f"{wname}[{ix}] / [{hname}[i] for i in {ix}]", "same-index-set", "violation" if other or (wsel or hsel) else "unknown", "weights and hyperedges are filtered with different index sets: weights end up on the wrong hyperedges", loc(v.fi, nz[0]))
+                else:
+                    res.unknown("Y-WEIGHTED", f, f"{wname}[{ix}] / [{hname}[i] for i in {ix}]", "same-index-set", "the statements that apply the filter were not recognised", loc(v.fi, nz[0]))
+            elif not nz and not wsel_all and not hsel_all and not any(positive_test(n) for n in walk_no_nested(v.fi.node) if isinstance(n, ast.expr)):
+                res.violation("Y-WEIGHTED", f, f"nonzero = np.where({wname} > 0)[0]", "filter", "zero weights are not filtered out", loc(v.fi, ys[0]))
+            else:
+                res.unknown("Y-WEIGHTED", f, f"nonzero = np.where({wname} > 0)[0]", "filter", "the zero-weight filter was not recognised", loc(v.fi, ys[0]))
     # ---- K-IDX mapping in / out
     with res.guard("K-IDX mapping in / out"):
-        tr = [n for n in walk_no_nested(v.fi.node) if isinstance(n, ast.Attribute) and n.attr == "transform" and norm(n.value) == "mapping"]
-        inv = [n for n in walk_no_nested(v.fi.node) if isinstance(n, ast.Attribute) and n.attr == "inverse_transform" and norm(n.value) == "mapping"]
-        res.check(bool(tr) and bool(inv), "K-IDX", f, "mapping.transform / mapping.inverse_transform", "both-directions", "node labels are mapped to indices but not back (or vice versa)", loc(v.fi, v.fi.node))
+        v = ctx.view("HyMMSBMSampler.sample")
+        f = v.fi.short
+        params = [a.arg for a in v.fi.params]
+        mdefs = [n for n in walk_no_nested(v.fi.node) if isinstance(n, ast.Assign) and isinstance(n.targets[0], ast.Name) and isinstance(n.value, ast.Call) and isinstance(n.value.func, ast.Attribute) and n.value.func.attr == "get_mapping"]
+        if not mdefs:
+            raise AnalysisError(f"{f}: node mapping not found")
+        mvar = mdefs[0].targets[0].id
+        src = norm(mdefs[0].value.func.value)
+        res.check(all(norm(x.value.func.value) == "initial_hyg" for x in mdefs if x.targets[0].id == mvar) and "initial_hyg" in params, "K-IDX", f, norm(mdefs[0]), "mapping-of-initial", "the mapping is not that of the initial hypergraph", loc(v.fi, mdefs[0]))
+        tr = [n for n in walk_no_nested(v.fi.node) if isinstance(n, ast.Attribute) and n.attr == "transform" and norm(n.value) == mvar]
+        inv = [n for n in walk_no_nested(v.fi.node) if isinstance(n, ast.Attribute) and n.attr == "inverse_transform" and norm(n.value) == mvar]
+        if tr and inv:
+            res.ok("K-IDX", f, f"{mvar}.transform / {mvar}.inverse_transform", "both-directions", loc(v.fi, v.fi.node))
+        elif tr or inv:
+            helper = any(isinstance(n, ast.Call) and any(isinstance(a_, ast.Name) and a_.id == mvar for a_ in n.args) for n in walk_no_nested(v.fi.node))
+            res.add("K-IDX", f, f"{mvar}.transform / {mvar}.inverse_transform", "both-directions", "unknown" if helper else "violation", "node labels are mapped to indices but not back (or vice versa)", loc(v.fi, v.fi.node))
+        else:
+            res.unknown("K-IDX", f, f"{mvar}.transform / {mvar}.inverse_transform", "both-directions", "uses of the mapping were not recognised", loc(v.fi, v.fi.node))
         for n in inv:
-            ifs = v.enclosing_all(n, (ast.If,))
-            res.check(any(norm(i.test) in ("initial_hyg", "initial_hyg is not None") for i in ifs), "K-IDX", f, norm(n), "condition", "the inverse mapping is not applied exactly when an initial hypergraph was given", loc(v.fi, n))
-        mdef = [n for n in walk_no_nested(v.fi.node) if isinstance(n, ast.Assign) and norm(n.targets[0]) == "mapping"]
-        res.check(bool(mdef) and all(norm(x.value) == "initial_hyg.get_mapping()" for x in mdef), "K-IDX", f, norm(mdef[0]) if mdef else "mapping = initial_hyg.get_mapping()", "mapping-of-initial", "the mapping is not that of the initial hypergraph", loc(v.fi, v.fi.node))
+            nid = v.cfg_id(n)
+            ok = False
+            any_if = False
+            for i in [x for x in walk_no_nested(v.fi.node) if isinstance(x, ast.If)]:
+                for atom, _ in _atoms(i.test, True):
+                    given = None
+                    if isinstance(atom, ast.Name) and atom.id == "initial_hyg":
+                        given = True
+                    elif isinstance(atom, ast.Compare) and norm(atom) in ("initial_hyg is not None", "initial_hyg is None"):
+                        given = norm(atom).endswith("is not None")
+                    if given is None:
+                        continue
+                    any_if = True
+                    lab = _implied_branch(i.test, atom, given)
+                    if lab and v.cfg.branch_dominated(v.cfg.by_ast[id(i.test)], lab, nid):
+                        ok = True
+            res.add("K-IDX", f, norm(n), "condition", "ok" if ok else ("unknown" if any_if or v.enclosing_all(n, (ast.If,)) else "violation"), "" if ok else "the inverse mapping is not applied exactly when an initial hypergraph was given", loc(v.fi, n))
     res.assumptions += ["numpy Generators constructed from equal seeds produce equal streams (library)", "degree / size conditioning and chain invariants are not decided (set algebra + asserts)"]
     return res
